@@ -18,7 +18,8 @@
  * A job that ends first kills its child (SIGKILL also ends a stopped child); children die with their parent
  * (PR_SET_PDEATHSIG), so nothing is left behind even when the watchdog fires.
  * The threads also have iv_signal interests (process-wide and this-thread) for SIGUSR1 that they send to each
- * other.  The program ends by itself after ROUNDS rounds per thread; exit status 0 unless a watchdog fires.
+ * other; how that traffic is wound down without a signal ever meeting the default disposition is described
+ * at tick().  The program ends by itself after ROUNDS rounds per thread; exit status 0 unless a watchdog fires.
  * ThreadSanitizer reports go to stderr and make the exit status 66.  Nothing here waits for a time to be
  * "long enough": every timeout only decides WHICH code runs, the program is correct for every timing.
  *
@@ -77,8 +78,8 @@ static struct thr thr[MAXTHR];
 static int nthr = 3;
 static int rounds = 12;
 static pthread_barrier_t start_barrier;
-static int finished[MAXTHR];		/* accessed with __atomic builtins */
-static int nfinished;
+static int finished[MAXTHR];		/* accessed with __atomic builtins: has stopped sending and taking SIGUSR1 */
+static int nexited;			/* threads != 0 whose loop has ended and that have SIGUSR1 blocked */
 
 static void child_body(long us)
 {
@@ -278,21 +279,63 @@ static void got_sig(void *cookie)
 	t->cnt[C_SIG]++;
 }
 
+/*
+ * The end of the SIGUSR1 traffic.  As long as one interest for SIGUSR1 exists the disposition is the library's
+ * handler; when the last one goes it is SIG_DFL again, and a SIGUSR1 that is delivered then kills the
+ * process.  Ordering the SENDS before the last unregistration is not enough: a process-directed signal can
+ * stay pending for any length of time.  So:
+ *  - a thread that has finished its rounds sends nothing any more; it blocks SIGUSR1 in itself before it
+ *    unregisters its interests (nothing is delivered to it from then on; what is pending for it alone is
+ *    discarded when it exits), runs its loop down, and only after iv_deinit counts itself in `nexited`;
+ *  - thread 0 keeps its interests until its own rounds are done AND every other thread has counted itself
+ *    exited.  All sends have returned by then, every other thread has SIGUSR1 blocked (the runtime's own
+ *    threads block all signals), so a signal still pending can only be taken by thread 0.  It blocks
+ *    SIGUSR1 too, consumes whatever is pending for the process or itself with sigtimedwait(timeout 0) until
+ *    EAGAIN, and only then unregisters; SIGUSR1 stays blocked in every thread until the process exits;
+ *  - at the other end, no thread sends before all threads have registered their interests (second wait on
+ *    the start barrier in thread_main).
+ * SIGCHLD needs nothing of the kind: when the last wait interest of the process goes, its disposition
+ * returns to the default, which is to ignore it.  The signals sent to children (STOP / CONT / TERM / KILL)
+ * never come back to this process.
+ */
+static void block_sigusr1(void)
+{
+	sigset_t set;
+
+	sigemptyset(&set);
+	sigaddset(&set, SIGUSR1);
+	pthread_sigmask(SIG_BLOCK, &set, NULL);
+}
+
+static void drain_sigusr1(void)
+{
+	sigset_t set;
+	struct timespec zero = { 0, 0 };
+
+	sigemptyset(&set);
+	sigaddset(&set, SIGUSR1);
+	while (sigtimedwait(&set, NULL, &zero) >= 0 || errno == EINTR)
+		;
+}
+
 static void tick(void *cookie)
 {
 	struct thr *t = cookie;
 	int mine_done = (t->done + 1 >= t->rounds * 2);
 	int target = (t->idx + 1) % nthr;
 
-	/* thread 0 keeps an interest alive until every other thread is done, so that the disposition of SIGUSR1
-	 * never returns to the default while somebody may still send it */
-	if (mine_done && (t->idx != 0 || __atomic_load_n(&nfinished, __ATOMIC_ACQUIRE) == nthr - 1)) {
+	if (mine_done && t->idx != 0) {
+		block_sigusr1();
+		__atomic_store_n(&finished[t->idx], 1, __ATOMIC_RELEASE);
 		iv_signal_unregister(&t->sig_all);
 		iv_signal_unregister(&t->sig_me);
-		if (t->idx != 0) {
-			__atomic_store_n(&finished[t->idx], 1, __ATOMIC_RELEASE);
-			__atomic_add_fetch(&nfinished, 1, __ATOMIC_ACQ_REL);
-		}
+		return;
+	}
+	if (mine_done && __atomic_load_n(&nexited, __ATOMIC_ACQUIRE) == nthr - 1) {
+		block_sigusr1();
+		drain_sigusr1();
+		iv_signal_unregister(&t->sig_all);
+		iv_signal_unregister(&t->sig_me);
 		return;
 	}
 	if (!mine_done) {
@@ -325,6 +368,10 @@ static void *thread_main(void *arg)
 	t->sig_me.cookie = t;
 	t->sig_me.handler = got_sig;
 	iv_signal_register(&t->sig_me);
+	/* nobody sends SIGUSR1 before every thread -- thread 0, whose interests are the last to go, in particular --
+	 * has its interests: a thread that is starved at the start could otherwise find a thread-directed signal
+	 * waiting for it after a fast thread has come and gone and taken the handler with it */
+	pthread_barrier_wait(&start_barrier);
 	IV_TIMER_INIT(&t->tick);
 	t->tick.cookie = t;
 	t->tick.handler = tick;
@@ -335,6 +382,10 @@ static void *thread_main(void *arg)
 	}
 	iv_main();
 	iv_deinit();
+	if (t->idx != 0) {
+		block_sigusr1();	/* already blocked in tick(); the count below must never precede it */
+		__atomic_add_fetch(&nexited, 1, __ATOMIC_ACQ_REL);
+	}
 	return NULL;
 }
 
